@@ -52,6 +52,8 @@ type c11Stream struct {
 	id       string
 	got      []byte
 	lastRead time.Time // taken before the call that last produced data (or before Open)
+	prevRead time.Time // the value of lastRead before that call
+	readStep int       // step of that call
 	closed   bool      // Close called by the driver
 	fired    bool      // force-closed by the idle timer (detected)
 }
@@ -74,6 +76,7 @@ type c11Env struct {
 	expected map[string][]byte
 	fail     string
 	sig      string
+	step     int
 }
 
 func (e *c11Env) setFail(sig, msg string) {
@@ -286,8 +289,14 @@ func (e *c11Env) detectFires(now time.Time) []int {
 		if to {
 			s.fired = true
 			fired = append(fired, i)
-			if e.mode == "timer" && now.Sub(s.lastRead) < c11TimerTimeout {
-				e.setFail("C11:fired-early", fmt.Sprintf("stream %d was force-closed %s after its last read activity (timeout %s)", i, now.Sub(s.lastRead), c11TimerTimeout))
+			// Read does not take the streamer's mutex: a Read of this very step may have overlapped the
+			// callback that had already found the stream idle; only activity before this step counts
+			base := s.lastRead
+			if s.readStep == e.step && !s.prevRead.IsZero() {
+				base = s.prevRead
+			}
+			if e.mode == "timer" && now.Sub(base) < c11TimerTimeout {
+				e.setFail("C11:fired-early", fmt.Sprintf("stream %d was force-closed %s after its last read activity (timeout %s)", i, now.Sub(base), c11TimerTimeout))
 			}
 		}
 	}
@@ -322,7 +331,7 @@ func (e *c11Env) do(op c11Op) c11StepRes {
 			e.streams = append(e.streams, &c11Stream{})
 			return c11StepRes{act: "AOpen", obs: "OConflict"}
 		}
-		s := &c11Stream{rc: rc, ls: rc.(*LockingStreamer), id: e.lastID, lastRead: before}
+		s := &c11Stream{rc: rc, ls: rc.(*LockingStreamer), id: e.lastID, lastRead: before, readStep: -1}
 		e.streams = append(e.streams, s)
 		if e.expectedFor(s.id) == nil {
 			e.setFail("C11:open-failed", "cannot read reference content of "+s.id)
@@ -349,7 +358,7 @@ func (e *c11Env) do(op c11Op) c11StepRes {
 			return c11StepRes{act: act, obs: "OClosedErr"}
 		case n > 0 || err == nil || err == io.EOF:
 			if n > 0 {
-				s.lastRead = before
+				s.prevRead, s.lastRead, s.readStep = s.lastRead, before, e.step
 			}
 			s.got = append(s.got, buf[:n]...)
 			if exp := e.expected[s.id]; !bytes.HasPrefix(exp, s.got) || (err == io.EOF && len(s.got) != len(exp)) {
@@ -605,9 +614,45 @@ func c11RunSchedule(t *testing.T, w *vWriter, in c11Input, gen func(e *c11Env) (
 		w.w.Flush()
 		w.mu.Unlock()
 	}()
+	// Real-timer schedules: a double release panics inside a timer goroutine and kills the test
+	// process, which nothing can recover.  So that the schedule is not lost, a provisional failing
+	// case (with the operations so far) is kept at the end of cases.jsonl while the schedule runs;
+	// it is turned into an unparsable line (which bin/check skips) as soon as it is superseded.
+	pending := false
+	cancel := func() {
+		if pending {
+			w.mu.Lock()
+			w.w.WriteString(" CANCELLED\n")
+			w.w.Flush()
+			w.mu.Unlock()
+			pending = false
+		}
+	}
+	provisional := func(step int, op c11Op) {
+		if in.Mode != "timer" {
+			return
+		}
+		cancel()
+		b, err := json.Marshal(VCase{Input: in, Key: vJSON(in),
+			OracleFail: fmt.Sprintf("the test process died during or after step %d (%s %d): a goroutine of the store panicked (see the driver log; e.g. \"reader count went negative\" in an idle-timer callback)", step, op.Op, op.I),
+			Sig:        "C11:process-died"})
+		if err != nil {
+			return
+		}
+		w.mu.Lock()
+		w.w.Write(b)
+		w.w.Flush()
+		w.mu.Unlock()
+		pending = true
+	}
+	emit := func(vc VCase) {
+		cancel()
+		w.Emit(vc)
+	}
+	defer cancel()
 	e, err := c11NewEnv(t, in.Mode)
 	if err != nil {
-		w.Emit(VCase{Input: in, Key: vJSON(in), Inconcl: "setup: " + err.Error()})
+		emit(VCase{Input: in, Key: vJSON(in), Inconcl: "setup: " + err.Error()})
 		return
 	}
 	defer e.cleanup()
@@ -625,6 +670,15 @@ func c11RunSchedule(t *testing.T, w *vWriter, in c11Input, gen func(e *c11Env) (
 		} else {
 			break
 		}
+		{
+			saved := in.Ops
+			if gen != nil {
+				in.Ops = append(append([]c11Op{}, in.Ops...), op)
+			}
+			provisional(i, op)
+			in.Ops = saved
+		}
+		e.step = i
 		wasWaiting := e.loop == "waiting"
 		openBefore := e.nOpen()
 		var r c11StepRes
@@ -639,6 +693,9 @@ func c11RunSchedule(t *testing.T, w *vWriter, in c11Input, gen func(e *c11Env) (
 		if r.skip {
 			continue
 		}
+		// the reaper's state when the call returned: a real timer may fire between here and the
+		// next quiescence check and let a just-parked reaper in - that is still "parked, then released"
+		loopAfterDo := e.loop
 		if gen != nil {
 			in.Ops = append(in.Ops, op)
 		}
@@ -646,10 +703,9 @@ func c11RunSchedule(t *testing.T, w *vWriter, in c11Input, gen func(e *c11Env) (
 			if e.fail == "" {
 				e.setFail("C11:stuck", fmt.Sprintf("step %d (%s): the store did not become quiescent within 20 s", i, op.Op))
 			}
-			w.Emit(VCase{Input: in, Key: vJSON(in), OracleFail: e.fail, Sig: e.sig})
+			emit(VCase{Input: in, Key: vJSON(in), OracleFail: e.fail, Sig: e.sig})
 			return
 		}
-		loopAfterDo := e.loop
 		// fires, reaper state and lock state must be one consistent snapshot: a real timer may fire
 		// at any moment, so re-read until no new fire shows up after the lock was read
 		fired := e.detectFires(time.Now())
@@ -657,7 +713,7 @@ func c11RunSchedule(t *testing.T, w *vWriter, in c11Input, gen func(e *c11Env) (
 		var owner string
 		for round := 0; ; round++ {
 			if (len(fired) > 0 || round > 0) && !e.settle() { // a fire may have woken the reaper
-				w.Emit(VCase{Input: in, Key: vJSON(in), Inconcl: "no quiescence within 20 s after idle fire"})
+				emit(VCase{Input: in, Key: vJSON(in), Inconcl: "no quiescence within 20 s after idle fire"})
 				return
 			}
 			nr, owner = c11Lock(e.store)
@@ -724,7 +780,7 @@ func c11RunSchedule(t *testing.T, w *vWriter, in c11Input, gen func(e *c11Env) (
 	if e.fail != "" {
 		vc.OracleFail, vc.Sig = e.fail, e.sig
 	}
-	w.Emit(vc)
+	emit(vc)
 }
 
 // ---------------------------------------------------------------- free-running family: an Open slips in
